@@ -221,6 +221,47 @@ def lockedWaitViolations (t : List Access) : List Access :=
 def atomicOps (t : List Access) (fn strct field : String) : List String :=
   ((t.filter (fun a => a.fn == fn && a.strct == strct && a.field == field && a.how == "atomic")).map (·.method)).eraseDups
 
+/-! ### one critical section per function (atomicity of check-then-act) -/
+
+/-- is `strct.field` declared as protected by mutex `l`? -/
+def protectedBy (l strct field : String) : Bool :=
+  match protections.lookup (strct, field) with
+  | some (.mutex l') => l' == l
+  | _ => false
+
+abbrev SecRow := String × String × Nat × Bool × String × String × Bool   -- fn, lock, section, read-mode, struct, field, write
+
+/-- the rows that touch a field protected by the very lock whose section they sit in -/
+def guardedRows (t : List SecRow) : List SecRow :=
+  t.filter (fun r => protectedBy r.2.1 r.2.2.2.2.1 r.2.2.2.2.2.1)
+
+/-- (function, lock) pairs in which the function reads or writes the data a lock protects in TWO different
+    critical sections of that lock, at least one access being a write: between the sections the lock is
+    released, so a check made in the first may be stale when the second acts on it (check-then-act,
+    double-checked locking without the second check, a lock "narrowed" around a slow call) -/
+def splitSections (t : List SecRow) : List (String × String) :=
+  let g := guardedRows t
+  ((g.filter (fun r => g.any (fun r' => r'.1 == r.1 && r'.2.1 == r.2.1 && r'.2.2.1 != r.2.2.1 &&
+      (r.2.2.2.2.2.2 || r'.2.2.2.2.2.2)))).map (fun r => (r.1, r.2.1))).eraseDups
+
+/-- writes to mutex-protected data made while the lock is held in READ mode only -/
+def writesUnderRLock (t : List SecRow) : List SecRow :=
+  (guardedRows t).filter (fun r => r.2.2.2.1 && r.2.2.2.2.2.2)
+
+/-! ### stream ids: allocation and `new_stream` under one lock (C08) -/
+
+/-- the rows of `newStream` that send on the carrier, and the writes of `lastStreamID` -/
+def newStreamSends (t : List Access) : List Access :=
+  t.filter (fun a => a.fn == "tunnelChannel.newStream" && a.strct == "tunnelChannel" && a.field == "stream" && a.how == "call" && a.method == "Send")
+
+def idWrites (t : List Access) : List Access :=
+  t.filter (fun a => a.strct == "tunnelChannel" && a.field == "lastStreamID" && a.write)
+
+/-- rows of the two kinds above that do NOT hold `streamCreation` (and, for the id, `mu`) -/
+def idOrderViolations (t : List Access) : List Access :=
+  (newStreamSends t).filter (fun a => !a.held.contains "tunnelChannel.streamCreation") ++
+  (idWrites t).filter (fun a => !(a.held.contains "tunnelChannel.streamCreation" && a.held.contains "tunnelChannel.mu"))
+
 def showAccess (a : Access) : String :=
   s!"{a.strct}.{a.field} in {a.fn}: {if a.write then "write" else "read"} ({a.how}) holding {a.held}"
 
